@@ -133,27 +133,30 @@ end Path
 inductive Fail | usage | crash
   deriving DecidableEq, Repr
 
-def lower (s : String) : String := s.toLower
+/-- `str.lower()` on the ASCII names the harness generates -/
+def lower (s : String) : String := String.ofList (s.toList.map Char.toLower)
 
-/-- lines 220-241 -/
+/-- lines 224-245: first the two `parser.error` checks on the kind of output, then the three-way
+derivation -/
 def deriveOutputs (isStack : Bool) (inputs : List Path) (format : String) (output : Option Path)
-    (isDir : Path → Bool) : Except Fail (List Path) := do
-  if isStack then
-    match output with
-    | none => throw .usage
-    | some o => if isDir o then throw .usage
+    (isDir : Path → Bool) : Except Fail (List Path) :=
+  let rejected : Bool :=
+    if isStack then
+      match output with
+      | none => true
+      | some o => isDir o
+    else
+      match output with
+      | none => false
+      | some o => !isDir o && decide (inputs.length > 1)
+  if rejected then .error .usage
   else
     match output with
-    | none => pure ()
-    | some o => if !isDir o && decide (inputs.length > 1) then throw .usage
-  match output with
-  | none => pure (inputs.map (·.withSuffix format))
-  | some o =>
-    if isDir o then
-      pure (inputs.map fun i => o.join (i.withSuffix format))
-    else
-      if lower o.suffix != format then throw .usage
-      pure [o]
+    | none => .ok (inputs.map (·.withSuffix format))
+    | some o =>
+      if isDir o then .ok (inputs.map fun i => o.join (i.withSuffix format))
+      else if lower o.suffix != format then .error .usage
+      else .ok [o]
 
 /-- where the property says outputs go; `none` = the combination is rejected -/
 def specOutputs (isStack : Bool) (inputs : List Path) (format : String) (output : Option Path)
@@ -168,10 +171,11 @@ def specOutputs (isStack : Bool) (inputs : List Path) (format : String) (output 
 
 /-! ## lasers -/
 
-structure Cfg where
-  spotsize : Tok
-  speed : Tok
-  scantime : Tok
+/-- the stored form of a configuration: a raster `Config` (spotsize, speed, scantime) or a
+`SpotConfig` (x and y distance between spots; its array form holds nothing else) -/
+inductive Cfg
+  | raster (spotsize speed scantime : Tok)
+  | spot (x y : Tok)
   deriving DecidableEq, Repr
 
 abbrev Px := String → Tok
@@ -193,16 +197,24 @@ def Laser.setField (l : Laser) (e : String) (g : Grid Tok) : Laser :=
 def Laser.remove (l : Laser) (names : List String) : Laser :=
   { l with elements := l.elements.filter fun e => !names.contains e }
 
-/-- loader parameters (`full=True`) that `load` copies into the config (lines 61-66) -/
+/-- the `spotsize` a loader reports: one number, or an (x, y) tuple (Nu Instruments directories) -/
+inductive Spot
+  | one (s : Tok)
+  | two (x y : Tok)
+
+/-- loader parameters (`full=True`) that `load` copies into the config (lines 62-72) -/
 structure Params where
-  spotsize : Option Tok
+  spotsize : Option Spot
   speed : Option Tok
   scantime : Option Tok
 
-/-- lines 61-68: a fresh `Config()` overlaid with the parameters the loader returned -/
-def configOf (defaults : Cfg) (p : Params) : Cfg :=
-  { spotsize := p.spotsize.getD defaults.spotsize, speed := p.speed.getD defaults.speed,
-    scantime := p.scantime.getD defaults.scantime }
+/-- lines 62-72: a fresh `Config()` overlaid with the parameters the loader returned; an (x, y)
+spot spacing gives a `SpotConfig` (speed and scantime assigned to it afterwards are not stored) -/
+def configOf (dSpot dSpeed dScan : Tok) (p : Params) : Cfg :=
+  match p.spotsize with
+  | some (.two x y) => .spot x y
+  | some (.one s) => .raster s (p.speed.getD dSpeed) (p.scantime.getD dScan)
+  | none => .raster dSpot (p.speed.getD dSpeed) (p.scantime.getD dScan)
 
 /-- lines 353-370; `none` = "skipping: no matching elements" -/
 def convertStep (config : Option Cfg) (elements : Option (List String)) (l : Laser) : Option Laser :=
@@ -218,18 +230,23 @@ def convertStep (config : Option Cfg) (elements : Option (List String)) (l : Las
 
 /-- the image restricted to the requested elements, in the image's own order -/
 def restrictSpec (config : Option Cfg) (elements : Option (List String)) (l : Laser) : Option Laser :=
-  let els := match elements with
-    | none => l.elements
-    | some req => l.elements.filter fun e => req.contains e
-  if els = [] then none else some { elements := els, data := l.data, config := config.getD l.config }
+  match elements with
+  | none => some { l with config := config.getD l.config }
+  | some req =>
+    let els := l.elements.filter fun e => req.contains e
+    if els = [] then none else some { elements := els, data := l.data, config := config.getD l.config }
 
-/-- lines 372-384: `elements = args.filter_elements or laser.elements`, then one field assignment
-per element; a requested element the input does not have is skipped -/
+/-- the body of the loop at lines 381-387: one field assignment; a requested element the input does
+not have is skipped -/
+def fstep (f : String → Grid Tok → Grid Tok) (l : Laser) (e : String) : Laser :=
+  if l.elements.contains e then l.setField e (f e (l.field e)) else l
+
+/-- lines 376-387: `elements = args.filter_elements or laser.elements`, then the loop -/
 def filterStep (f : String → Grid Tok → Grid Tok) (sel : Option (List String)) (l : Laser) : Laser :=
   let elements := match sel with
     | none => l.elements
     | some s => if s.isEmpty then l.elements else s
-  elements.foldl (fun l e => if l.elements.contains e then l.setField e (f e (l.field e)) else l) l
+  elements.foldl (fstep f) l
 
 /-- is element `n` of image `l` selected by `--elements` (all elements when the option is absent) -/
 def selected (sel : Option (List String)) (l : Laser) (n : String) : Bool :=
